@@ -83,7 +83,7 @@ def eval_case(c):
     err = float(np.abs(L - ex).max())
     eps_dyn = 0.0 if static else c['eps_dyn']
     comp = 0.0 if incomp else max(c['mag'], rho * g0 * R) / K
-    budget = 200 * c['rtol'] + 10 * dconv + 10 * eps_dyn + 20 * comp    # dynamic correction: up to 7.1 eps_dyn on the Shida number in the fluid limit (same in two families)
+    budget = 200 * c['rtol'] + 10 * min(dconv, 1e3 * c['rtol']) + 10 * eps_dyn + 20 * comp    # dynamic correction: up to 7.1 eps_dyn on the Shida number in the fluid limit (same in two families)
     obs = {'fam': fam, 'l': l, 'solve_for': None if sf is None else list(sf), 'method': c['method'], 'rtol': c['rtol'], 'k_solver': complex(L[0]), 'k_closed': complex(ex[0]), 'err': err, 'delta_conv': dconv, 'budget': budget, 'eps_dyn': eps_dyn}
     viol = []
     # mechanism classifier for the known degeneracy (needed whether or not the probe flags the case as unconverged)
@@ -101,7 +101,10 @@ def eval_case(c):
     # The degeneracy makes the result ill-conditioned: it shows as an error of the same size as the disagreement between
     # integrators.  An error far above that disagreement is NOT explained by it (e.g. a wrong ODE coefficient) and is reported.
     explained_by_degeneracy = degenerate and err <= 30 * dconv
-    if dconv > 1e3 * c['rtol'] and not (explained_by_degeneracy and err > budget):
+    # convergence is judged relative to the size of the returned numbers: a grossly wrong but perfectly converged result (numbers of 1e10)
+    # must not be filed as "not converged"
+    dconv_rel = dconv / max(1.0, float(np.abs(L).max()))
+    if dconv_rel > 1e3 * c['rtol'] and not (explained_by_degeneracy and err > budget):
         return {'status': 'inconclusive', 'nontrivial': False, 'violations': [], 'obs': dict(obs, note='not converged: delta_conv > 1e3 rtol'), 'counters': cnt}
     cnt['decisive_comparisons'] += 1
     if err > budget:
